@@ -482,4 +482,131 @@ theorem inscribe_leaves_caller_memory_alone (h : SliceHeap.Heap UInt8) (p : Slic
         rw [SliceHeap.copyThenAppends_read h p _ wf, ← hs]
         simp [List.append_assoc]
 
+/-! ### the validation gates (ValidateListingArgs / ValidateBidArgs / ValidateBid2DArgs .Validate) -/
+
+
+/-- **Listing gate**: an offer passes `ValidateListingArgs.Validate` only if it has exactly one input and one output
+    and that input spends exactly the listed outpoint. -/
+theorem listing_gate_protects_outpoint (pstx : Tx) (listed : UTXO) (h : validateListing pstx listed = true) :
+    ∃ i o, pstx.inputs = [i] ∧ pstx.outputs = [o] ∧ i.prevTxID = listed.txid ∧ i.vout = listed.vout := by
+  unfold validateListing at h
+  simp only [Bool.and_eq_true, beq_iff_eq] at h
+  obtain ⟨⟨⟨hi, ho⟩, ht⟩, hv⟩ := h
+  match hins : pstx.inputs, houts : pstx.outputs with
+  | [i], [o] =>
+    refine ⟨i, o, rfl, rfl, ?_, ?_⟩
+    · simpa [hins] using ht
+    · simpa [hins] using hv
+  | [], _ => simp [hins] at hi
+  | _ :: _ :: _, _ => simp [hins] at hi
+  | [_], [] => simp [houts] at ho
+  | [_], _ :: _ :: _ => simp [houts] at ho
+
+/-- **Bid gate**: a bid passes `ValidateBidArgs.Validate` only if its second input spends exactly the seller's
+    ordinal outpoint, and what comes back is the offer with the bid amount written into output 1, paying the quoted fee. -/
+theorem bid_gate_protects_outpoint (pstx p : Tx) (ord : UTXO) (bid : Nat) (fq : FeeQuote)
+    (h : validateBid pstx ord bid fq = some p) :
+    (∃ i, pstx.inputs[1]? = some i ∧ i.prevTxID = ord.txid ∧ i.vout = ord.vout) ∧
+    p = { pstx with outputs := setOutSats pstx.outputs 1 bid } ∧ isFeePaidEnough p fq = true ∧
+    3 ≤ pstx.inputs.length ∧ 3 ≤ pstx.outputs.length := by
+  unfold validateBid at h
+  split at h
+  · simp at h
+  · rename_i hc
+    split at h
+    · simp at h
+    · rename_i ho
+      simp only at h
+      by_cases hf : isFeePaidEnough { pstx with outputs := setOutSats pstx.outputs 1 bid } fq = true
+      · rw [if_pos hf] at h
+        simp at h
+        subst h
+        simp only [Bool.or_eq_true, decide_eq_true_eq, not_or, Nat.not_lt] at hc
+        refine ⟨?_, rfl, hf, hc.1, hc.2⟩
+        cases hi : pstx.inputs[1]? with
+        | none => simp [hi] at ho
+        | some i =>
+          simp [hi] at ho
+          exact ⟨i, rfl, ho.1, ho.2⟩
+      · rw [if_neg hf] at h
+        simp at h
+
+/-- **Bid gate, two dummies**: a bid passes `ValidateBid2DArgs.Validate` only if every input spends the previous output
+    listed for its position (so input 2 spends the ordinal) and the first output passes the two dummies through. -/
+theorem bid2d_gate_protects_outpoints (pstx p : Tx) (prev : List UTXO) (bid : Nat) (fq : FeeQuote)
+    (h : validateBid2D pstx prev bid fq = some p) :
+    prev.length = pstx.inputs.length ∧
+    (∀ (k : Nat) (i : Input) (u : UTXO), pstx.inputs[k]? = some i → prev[k]? = some u → i.prevTxID = u.txid ∧ i.vout = u.vout) ∧
+    p = { pstx with outputs := setOutSats pstx.outputs 2 bid } ∧ isFeePaidEnough p fq = true := by
+  unfold validateBid2D at h
+  split at h
+  · simp at h
+  · split at h
+    · simp at h
+    · rename_i hl
+      split at h
+      · simp at h
+      · rename_i hz
+        split at h
+        · simp at h
+        · simp only at h
+          by_cases hf : isFeePaidEnough { pstx with outputs := setOutSats pstx.outputs 2 bid } fq = true
+          · rw [if_pos hf] at h
+            simp at h
+            subst h
+            refine ⟨by simpa using hl, ?_, rfl, hf⟩
+            intro k i u hi hu
+            have hz' : (List.zip pstx.inputs prev).all (fun x => x.1.prevTxID == x.2.txid && x.1.vout == x.2.vout) = true := by
+              simpa using hz
+            rw [List.all_eq_true] at hz'
+            have hm : (i, u) ∈ List.zip pstx.inputs prev :=
+              List.mem_of_getElem? (i := k) (by simp [List.getElem?_zip_eq_some, hi, hu])
+            simpa using hz' _ hm
+          · rw [if_neg hf] at h
+            simp at h
+
+/-- the completing flows go through their gates: no transaction is built from an offer the gate refuses -/
+theorem accept_listing_needs_valid_offer (pstx tx : Tx) (listed : UTXO) (utxos : List UTXO) (buyer dummy chg : Bytes)
+    (fq : FeeQuote) (h : acceptListing pstx listed utxos buyer dummy chg fq = .ok tx) :
+    validateListing pstx listed = true := by
+  unfold acceptListing at h
+  cases hv : validateListing pstx listed with
+  | true => rfl
+  | false => simp [hv] at h
+
+theorem accept_listing2D_needs_valid_offer (pstx tx : Tx) (listed : UTXO) (utxos : List UTXO) (buyer dummy chg : Bytes)
+    (fq : FeeQuote) (h : acceptListing2D pstx listed utxos buyer dummy chg fq = .ok tx) :
+    validateListing pstx listed = true := by
+  unfold acceptListing2D at h
+  cases hv : validateListing pstx listed with
+  | true => rfl
+  | false => simp [hv] at h
+
+theorem accept_bid_needs_valid_offer (pstx tx : Tx) (ord : UTXO) (bid : Nat) (fq : FeeQuote) (seller unlock : Bytes)
+    (h : acceptBid pstx ord bid fq seller unlock = .ok tx) : (validateBid pstx ord bid fq).isSome = true := by
+  unfold acceptBid at h
+  cases hv : validateBid pstx ord bid fq with
+  | some _ => rfl
+  | none => simp [hv] at h
+
+theorem accept_bid2D_needs_valid_offer (pstx tx : Tx) (prev : List UTXO) (bid : Nat) (fq : FeeQuote) (seller : Bytes)
+    (h : acceptBid2D pstx prev bid fq seller = .ok tx) : (validateBid2D pstx prev bid fq).isSome = true := by
+  unfold acceptBid2D at h
+  cases hv : validateBid2D pstx prev bid fq with
+  | some _ => rfl
+  | none => simp [hv] at h
+
+
+/-- a one-input one-output offer spending output 2 of a transaction -/
+def gateOffer : Tx :=
+  { version := 1, lockTime := 0,
+    inputs := [Input.mk (List.replicate 32 7) 2 (some [0x51]) 0xffffffff 0 none],
+    outputs := [{ sats := 1000, script := [0x51] }] }
+
+/-- non-vacuity: the offer passes the listing gate for the listed outpoint and is refused for the neighbouring output of
+    the same transaction -/
+example : validateListing gateOffer { txid := List.replicate 32 7, vout := 2, script := none, sats := 1 } = true ∧
+    validateListing gateOffer { txid := List.replicate 32 7, vout := 3, script := none, sats := 1 } = false := by
+  decide
+
 end GoBT.C20
